@@ -476,6 +476,10 @@ class Exec(Path):
                 idx_before = self.env.get(idxname) if idxname else None
                 if pre_body:
                     pre_body()
+                for ex in spec.get("assume_in_body", []):
+                    # an explicit, listed assumption about an external's result (never about the code)
+                    self.engine.assumption(f"loop assumption in {fn['info'].qualname}: {ex}")
+                    self.assume(self.eval_contract_expr(ex))
                 # extra ground instances of ghost-quantified invariants (sound: they are proved for arbitrary ghost values)
                 for g, exprs in spec.get("instantiate", {}).items():
                     for ex in exprs:
@@ -873,6 +877,9 @@ class Exec(Path):
                     if cnode is not None:
                         return self.eval_const_expr(cnode, owner.module)
                 else:
+                    hook = self.reg.methods.get(("obj:" + ci, "@" + attr))
+                    if hook is not None:
+                        return hook(self, obj, [], {})
                     return VBuiltin("method:" + attr, bound=obj)
                 self.raise_("AttributeError", VStr(attr))
             return VBuiltin("method:" + attr, bound=obj)
@@ -1078,7 +1085,13 @@ class Exec(Path):
             if isinstance(h, HList):
                 if h.items is not None:
                     return None, h
-                return self.list_seq(h), lambda t: self.alloc(HList(seq=t))
+
+                def mk_list(t, h=h):
+                    nh = HList(seq=t)
+                    if "elem" in h.tag:
+                        nh.tag["elem"] = h.tag["elem"]
+                    return self.alloc(nh)
+                return self.list_seq(h), mk_list
         if isinstance(obj, VTuple):
             return None, obj
         raise Unsupported(f"slice of {obj!r}")
@@ -1381,10 +1394,30 @@ class Exec(Path):
     def ex_GeneratorExp(self, n):
         return self.comprehension(n, "gen")
 
+    def pairing_source(self, it):
+        """zip(*[iter(X)] * 2): consecutive pairs (X[0],X[1]), (X[2],X[3]), ... ; len(X) // 2 of them"""
+        if not (isinstance(it, ast.Call) and isinstance(it.func, ast.Name) and it.func.id == "zip" and len(it.args) == 1
+                and isinstance(it.args[0], ast.Starred)):
+            return None
+        v = it.args[0].value
+        if not (isinstance(v, ast.BinOp) and isinstance(v.op, ast.Mult) and isinstance(v.right, ast.Constant) and v.right.value == 2
+                and isinstance(v.left, ast.List) and len(v.left.elts) == 1):
+            return None
+        e = v.left.elts[0]
+        if not (isinstance(e, ast.Call) and isinstance(e.func, ast.Name) and e.func.id == "iter" and len(e.args) == 1):
+            return None
+        xs = self.eval(e.args[0])
+        h = self.deref(self.unbox(xs) if isinstance(xs, VBox) else xs)
+        if not isinstance(h, HList):
+            raise Unsupported("pairing idiom over a non-list")
+        hh = h.clone()
+        n = self.list_len(hh)
+        return {"kind": "sym", "len": n / 2, "get": lambda i: VTuple([self.list_get(hh, 2 * i), self.list_get(hh, 2 * i + 1)])}
+
     def comprehension(self, n, kind):
         if len(n.generators) == 1 and not n.generators[0].ifs:
             g = n.generators[0]
-            src = self.iter_source(self.eval(g.iter))
+            src = self.pairing_source(g.iter) or self.iter_source(self.eval(g.iter))
             saved = dict(self.env)
             if src["kind"] == "concrete":
                 out = []
